@@ -7,6 +7,7 @@ import (
 	"os"
 	"path/filepath"
 	"sort"
+	"strings"
 	"testing"
 	"time"
 
@@ -47,6 +48,8 @@ type Op struct {
 	// Sec, Zone: the bound is Sec seconds into that UTC day, presented in a zone Zone quarter
 	// hours east of UTC (the backtest passes a time.Now()-derived bound; "on or after" is a
 	// comparison of instants)
+	// Backfill: the batch is dated before snapshots the asset already holds
+	Backfill bool `json:"backfill,omitempty"`
 	// Src: source asset of a "copy", second asset of a "peek"
 	Src  int `json:"src,omitempty"`
 	Sec  int `json:"sec,omitempty"`
@@ -129,6 +132,11 @@ func genCase(t *rapid.T) Case {
 			if !ok {
 				d = rapid.IntRange(0, 3000).Draw(t, "start")
 			}
+			if ok && k == "append" && d > 40 && rapid.IntRange(0, 5).Draw(t, "backfill") == 2 {
+				// a back-fill: older days appended after newer ones (the list is in append order)
+				op.Backfill = true
+				d -= rapid.IntRange(10, 40).Draw(t, "back")
+			}
 			for j := 0; j < m+m2; j++ {
 				d += rapid.IntRange(0, 3).Draw(t, "gap") // non-decreasing, equal dates allowed
 				if k == "overlap" {
@@ -145,7 +153,7 @@ func genCase(t *rapid.T) Case {
 				}
 				dates = append(dates, d)
 			}
-			if m+m2 > 0 {
+			if m+m2 > 0 && !op.Backfill {
 				last[op.Name] = d
 			}
 		case "since":
@@ -182,10 +190,28 @@ type repoMaker struct {
 	// offers (in-memory: guarded by its mutex; SQL: one INSERT per snapshot). The file-system
 	// repository makes no such promise for one file and is only driven sequentially.
 	concurrent bool
+	// appendOrder: reads return snapshots in append order whatever their dates (in-memory slice,
+	// CSV file); a database may order rows by its own rules, so back-fills are not driven there.
+	appendOrder bool
+	// lastIsMax: LastDate is the latest date held, not the date of the last appended snapshot
+	// (the two differ only after overlapping appends).
+	lastIsMax bool
 	// full makes the store of the name unwritable the way a full disk does (file-system: the file
 	// is a link to /dev/full, which opens and truncates fine and fails every write with ENOSPC);
 	// it returns the undo.
 	full func(name string) (func(), error)
+}
+
+func lastOf(want []Snap, max bool) int {
+	d := want[len(want)-1].Day
+	if max {
+		for _, s := range want {
+			if s.Day > d {
+				d = s.Day
+			}
+		}
+	}
+	return d
 }
 
 func sameSnap(a *asset.Snapshot, b Snap) bool {
@@ -246,7 +272,7 @@ func run(mk repoMaker, c Case) engine.Outcome {
 						got = helper.ChanToSlice(ch)
 					}
 					switch {
-					case !isKnown && err == nil && len(got) == 0 && mk.name == "sql":
+					case !isKnown && err == nil && len(got) == 0 && strings.HasPrefix(mk.name, "sql"):
 						o.KnownAs(sqlUnknownKey)
 					case !isKnown && err == nil:
 						o.Failf("%s step %d: Get(%q) of a never-appended asset returned no error (%d snapshots)", mk.name, step, nm, len(got))
@@ -282,7 +308,7 @@ func run(mk repoMaker, c Case) engine.Outcome {
 						got = helper.ChanToSlice(ch)
 					}
 					switch {
-					case !isKnown && err == nil && len(got) == 0 && mk.name == "sql":
+					case !isKnown && err == nil && len(got) == 0 && strings.HasPrefix(mk.name, "sql"):
 						o.KnownAs(sqlUnknownKey)
 					case !isKnown && err == nil:
 						o.Failf("%s step %d: GetSince(%q) of a never-appended asset returned no error", mk.name, step, nm)
@@ -302,8 +328,8 @@ func run(mk repoMaker, c Case) engine.Outcome {
 							o.Failf("%s step %d: LastDate(%q) of an asset without snapshots returned %v and no error", mk.name, step, nm, ld)
 							return false
 						}
-					} else if err != nil || !ld.Equal(day0.AddDate(0, 0, want[len(want)-1].Day)) {
-						o.Failf("%s step %d: LastDate(%q) = %v, %v; the last snapshot is dated %v", mk.name, step, nm, ld, err, day0.AddDate(0, 0, want[len(want)-1].Day))
+					} else if lastDay := lastOf(want, mk.lastIsMax); err != nil || !ld.Equal(day0.AddDate(0, 0, lastDay)) {
+						o.Failf("%s step %d: LastDate(%q) = %v, %v; the last snapshot is dated %v", mk.name, step, nm, ld, err, day0.AddDate(0, 0, lastDay))
 						return false
 					}
 				}
@@ -340,6 +366,12 @@ func run(mk repoMaker, c Case) engine.Outcome {
 				nm := names[op.Name]
 				switch op.K {
 				case "append":
+					if op.Backfill && !mk.appendOrder {
+						break // only where "ordered" means append order by construction
+					}
+					if op.Backfill {
+						o.Class("backfill_append")
+					}
 					batch := make([]*asset.Snapshot, len(op.Batch))
 					for j, s := range op.Batch {
 						batch[j] = s.snapshot()
@@ -507,7 +539,7 @@ func run(mk repoMaker, c Case) engine.Outcome {
 					}
 					got := []*asset.Snapshot{<-ch}
 					other := names[op.Src]
-					if ld, err := repo.LastDate(nm); err != nil || !ld.Equal(day0.AddDate(0, 0, model[nm][len(model[nm])-1].Day)) {
+					if ld, err := repo.LastDate(nm); err != nil || !ld.Equal(day0.AddDate(0, 0, lastOf(model[nm], mk.lastIsMax))) {
 						o.Failf("%s step %d: LastDate(%q) while a Get stream is open = %v, %v", mk.name, i, nm, ld, err)
 						return o
 					}
@@ -581,10 +613,10 @@ var sqlSeq int
 
 func makers() []repoMaker {
 	return []repoMaker{
-		{name: "memory", concurrent: true, open: func() (asset.Repository, func(), error) { return asset.NewInMemoryRepository(), func() {}, nil }},
+		{name: "memory", concurrent: true, appendOrder: true, open: func() (asset.Repository, func(), error) { return asset.NewInMemoryRepository(), func() {}, nil }},
 		func() repoMaker {
 			dir := ""
-			return repoMaker{name: "filesystem", open: func() (asset.Repository, func(), error) {
+			return repoMaker{name: "filesystem", appendOrder: true, open: func() (asset.Repository, func(), error) {
 				d, err := os.MkdirTemp("", "verif-c10-")
 				if err != nil {
 					return nil, nil, err
@@ -601,6 +633,17 @@ func makers() []repoMaker {
 			sqlSeq++
 			db := fmt.Sprintf("c10-%d-%d", engine.Shard(), sqlSeq)
 			r, err := asset.NewSQLRepository(stub.SQLDriverName, db, stub.MemDialect{})
+			if err != nil {
+				return nil, nil, err
+			}
+			return r, func() { _ = r.Close(); stub.ResetSQL(db) }, nil
+		}},
+		// the other dialect a conforming driver may come with: the last date as SELECT MAX(date)
+		// (one NULL row for an asset without snapshots instead of no row; "last" = latest)
+		{name: "sql/max-dialect", concurrent: true, lastIsMax: true, open: func() (asset.Repository, func(), error) {
+			sqlSeq++
+			db := fmt.Sprintf("c10m-%d-%d", engine.Shard(), sqlSeq)
+			r, err := asset.NewSQLRepository(stub.SQLDriverName, db, stub.MaxDialect{})
 			if err != nil {
 				return nil, nil, err
 			}
